@@ -3,7 +3,7 @@ from shell import c02
 
 ID = "C02"
 LEVEL = "other"
-FUNCTIONS = ["Exchange.process_EventNBBO"]
+FUNCTIONS = ["Exchange.process_EventNBBO", "body:Transmitter._create_partitions#0"]
 SHELL = [c02.env_prefix, c02.xy_prefix]
 LEVEL_TEXT = ("Two-run property. Bounded shell: every cut t of seeded streams, later values perturbed, full output prefix compared "
               "bit-for-bit, through TradingEnv and through the tabular API. Deductive kernel so far: the exchange installs exactly the "
